@@ -215,6 +215,42 @@ func (c *Ctx) eachFunc(path string, f func(p *packages.Package, fd *ast.FuncDecl
 	}
 }
 
+// printerDecl: the declaration that does the printing for fn. A printer that only delegates —
+// `func (x *T) LLString() string { return x.llStringIndent(defaultIndent) }` — is followed to
+// the same-receiver method it returns the result of (at most two hops).
+func (c *Ctx) printerDecl(fn *types.Func) (*ast.FuncDecl, *types.Func) {
+	fd := c.funcDecl(fn)
+	for hop := 0; hop < 2 && fd != nil && fd.Body != nil; hop++ {
+		if len(fd.Body.List) != 1 || fd.Recv == nil || len(fd.Recv.List) != 1 || len(fd.Recv.List[0].Names) != 1 {
+			break
+		}
+		r, ok := fd.Body.List[0].(*ast.ReturnStmt)
+		if !ok || len(r.Results) != 1 {
+			break
+		}
+		call, ok := unparen(r.Results[0]).(*ast.CallExpr)
+		if !ok {
+			break
+		}
+		info := c.declPkg[fd].TypesInfo
+		se, ok := unparen(call.Fun).(*ast.SelectorExpr)
+		if !ok {
+			break
+		}
+		id, ok := unparen(se.X).(*ast.Ident)
+		if !ok || info.ObjectOf(id) != info.Defs[fd.Recv.List[0].Names[0]] {
+			break
+		}
+		callee := calleeOf(info, call)
+		cfd := c.funcDecl(callee)
+		if cfd == nil || cfd == fd {
+			break
+		}
+		fd, fn = cfd, callee
+	}
+	return fd, fn
+}
+
 // lookupFunc finds a package-level function or a method "T.M" / "(*T).M" by name.
 func (c *Ctx) lookupFunc(path, name string) *types.Func {
 	p := c.All[path]
